@@ -121,7 +121,11 @@ def curves(draw, pmin=0, pmax=4, kmax=4, rational=None, dim=None, nums=("frac",)
         ps = draw(st.sampled_from([F(1), F(1), F(10 ** 8)] + ([F(1, 10 ** 8), F(1, 10 ** 11)] if regimes == "all" else [])))
         if ps != 1:
             P = [x * ps for x in P] if not isinstance(P[0], list) else [[c * ps for c in x] for x in P]
-    return {"U": U, "p": p, "P": P, "w": w, "num": num}
+    out = {"U": U, "p": p, "P": P, "w": w, "num": num}
+    if isinstance(P[0], list) and draw(st.integers(0, 3)) == 0:
+        # the control points handed over as a list of separate arrays; equal points are the same object
+        out["ptform"] = "arrays"
+    return out
 
 
 def breaks_of(U):
